@@ -982,11 +982,12 @@ STYLE_DEFAULTS = {
     "non_utf8_encoding": None,    # e.g. "utf-16" or "iso-8859-1" (when the text allows it)
     "pi": False,                  # processing instructions
     "hex_integers": False,        # <integer>0x1f</integer>
-    "unknown_glyph_attr_ws": False,
+    "crlf_text": False,           # line breaks INSIDE character data written as CR LF (an XML processor
+                                  # must hand them to the application as LF; quick-xml does not)
 }
 
 KNOWN_CLASSES = ("comments_in_glyph", "open_close_empties", "empty_lib_element", "empty_note_element", "cdata_note",
-                 "cdata_strings", "glif_doctype", "ws_in_numbers", "non_utf8_encoding", "pi", "hex_integers")
+                 "cdata_strings", "glif_doctype", "ws_in_numbers", "non_utf8_encoding", "pi", "hex_integers", "crlf_text")
 
 
 def random_style(rng, **classes):
@@ -1091,6 +1092,8 @@ class _W(object):
                     out.append(">")
             elif c == "\r":
                 out.append(self.rng.choice(["&#13;", "&#xD;", "&#xd;"]))
+            elif c == "\n" and self.s["crlf_text"]:
+                out.append("\r\n")
             elif c in "\"'" and self.rng.random() < 0.2:
                 out.append("&quot;" if c == '"' else "&apos;")
             elif self.p(self.s["charref"]):
@@ -1382,6 +1385,18 @@ def _transform_attrs(w, t):
     return out
 
 
+def _merge_object_libs(existing, olibs, what):
+    """object libs of the objects + entries already present in the lib (identifiers without an object,
+    as read_ufo leaves them)"""
+    if existing is None:
+        return {"t": "dict", "v": olibs}
+    if existing["t"] != "dict" or set(existing["v"]) & set(olibs):
+        raise UfoError("%s: %s in the lib clashes with the object libs" % (what, OBJECT_LIBS))
+    d = dict(existing["v"])
+    d.update(olibs)
+    return {"t": "dict", "v": d}
+
+
 def _glif_doc(rng, style, g):
     w = _W(rng, style, "glif")
     w.prolog()
@@ -1410,9 +1425,7 @@ def _glif_doc(rng, style, g):
                 raise UfoError("object lib without identifier in glyph %r" % g["name"])
             olibs[o["identifier"]] = {"t": "dict", "v": o["lib"]}
     if olibs:
-        if OBJECT_LIBS in lib:
-            raise UfoError("glyph lib already has %s" % OBJECT_LIBS)
-        lib[OBJECT_LIBS] = {"t": "dict", "v": olibs}
+        lib[OBJECT_LIBS] = _merge_object_libs(lib.get(OBJECT_LIBS), olibs, "glyph %r" % g["name"])
 
     def opt(attrs, name, v):
         if v is not None:
@@ -1590,18 +1603,16 @@ def _file_name(name, prefix, suffix, taken):
     s = ".".join(parts)
     while len((prefix + s + suffix).encode("utf-8")) > 200:
         s = s[:-1]
+    if not suffix and (prefix + s).endswith((" ", ".")):
+        # no trailing blank or period in a directory name
+        s = (prefix + s).rstrip(" .")[len(prefix):] + "_"
     full = prefix + s + suffix
     n = 0
-    while full.lower() in taken or s.endswith((" ", ".")) and not suffix:
+    while full.lower() in taken:
         n += 1
-        full = prefix + s + "%02d" % n + suffix
-        if not (s.endswith((" ", ".")) and not suffix) and full.lower() not in taken:
-            break
-        if n > 1000:
+        if n > 100000:
             raise UfoError("cannot find a file name for %r" % name)
-        if s.endswith((" ", ".")) and not suffix:
-            s = s.rstrip(" .") + "_"
-            full = prefix + s + suffix
+        full = prefix + s + "%02d" % n + suffix
     taken.add(full.lower())
     return full
 
@@ -1663,9 +1674,7 @@ def write_ufo(font, path, rng, style=None):
             arr.append({"t": "dict", "v": d})
         info["guidelines"] = {"t": "array", "v": arr}
         if olibs:
-            if OBJECT_LIBS in lib:
-                raise UfoError("font lib already has %s" % OBJECT_LIBS)
-            lib[OBJECT_LIBS] = {"t": "dict", "v": olibs}
+            lib[OBJECT_LIBS] = _merge_object_libs(lib.get(OBJECT_LIBS), olibs, "font lib")
     if info or maybe_empty():
         respell = {k for k, t in FONTINFO_KEYS.items() if t in ("num", "nnnum", "numlist", "float", "list")}
         # "list": only guidelines carry integer-or-float numbers; gasp / name records are integers
